@@ -200,6 +200,18 @@ class Rig:
             self.s.stop()
         elif k == "sleep":
             self.s.sleep(self.rel(st[1]))
+        elif k in ("advance_to", "advance_by"):
+            # a RE-ENTRANT control call on the scheduler that is running this action
+            try:
+                if k == "advance_to":
+                    self.s.advance_to(self.abs_(st[1]))
+                else:
+                    self.s.advance_by(self.rel(st[1]))
+            except Exception as e:  # noqa
+                if not (st[2] and type(e).__name__ == "ArgumentOutOfRangeException"):
+                    raise
+        elif k == "start":
+            self.VTS.start(self.s)
         else:
             raise ValueError(k)
 
@@ -336,7 +348,7 @@ def model_request(case):
 # --------------------------------------------------------------------------- generators
 class Gen:
     def __init__(self, rng, unit=1, max_depth=3, raise_p=0.0, via_p=0.0, stop_p=0.03, sleep_p=0.1, cancel_p=0.15,
-                 tmax=12):
+                 tmax=12, ctl_p=0.0):
         self.rng = rng
         self.unit = unit
         self.next_id = 1
@@ -347,6 +359,7 @@ class Gen:
         self.sleep_p = sleep_p
         self.cancel_p = cancel_p
         self.tmax = tmax
+        self.ctl_p = ctl_p   # re-entrant advance_to/advance_by/start from inside actions
 
     def t_rel(self):
         r = self.rng.random()
@@ -366,6 +379,14 @@ class Gen:
         steps = []
         n = rng.choice([0, 0, 1, 1, 2, 3]) if depth < self.max_depth else 0
         for _ in range(n):
+            if rng.random() < self.ctl_p and not any(s[0] == "stop" for s in steps):
+                # (never after a stop() in the same body: the real code would then run a nested loop, which is not modelled)
+                c = rng.randrange(6)
+                d = clock_hint + self.unit * rng.choice([-4, 0, 0, 3, 10])
+                steps.append([["advance_to", d, rng.random() < 0.6], ["advance_to", clock_hint + self.unit * 50, False],
+                              ["advance_by", 0, False], ["advance_by", self.unit * rng.choice([-2, 1, 5]), rng.random() < 0.7],
+                              ["start"], ["advance_to", clock_hint - self.unit * 100, True]][c])
+                continue
             r = rng.random()
             if r < self.cancel_p:
                 steps.append(["cancel", rng.randrange(1, max(2, self.next_id + 2))])
